@@ -721,7 +721,9 @@ func (c *Ctx) functionHandlerShape(h *handler) (count, order shapeVerdict) {
 	holdsPop := func(v ssa.Value) bool {
 		return backwardSliceHasStore(v, func(x ssa.Value) bool { return x == ssa.Value(pop) })
 	}
-	inLoop := func(b *ssa.BasicBlock) bool { return loopVar.Block().Dominates(b) && b != loopVar.Block() && loopVar.Block().Succs[0].Dominates(b) }
+	inLoop := func(b *ssa.BasicBlock) bool {
+		return loopVar.Block().Dominates(b) && b != loopVar.Block() && loopVar.Block().Succs[0].Dominates(b)
+	}
 	laterLoop := false
 	for _, b := range dominatedBlocks(h.body) {
 		if b == loopVar.Block() || inLoop(b) {
